@@ -26,6 +26,12 @@ pub struct Case {
     /// every target resolves each command to one shared script through `commands.definitions`
     #[serde(default)]
     pub shared_exe: bool,
+    /// an earlier run of the same commands in the same repository precedes the rendezvous run:
+    /// 0 none, 1 some members of the group fail in it (mask), 2 all succeed, 3 all members fail
+    #[serde(default)]
+    pub history: u8,
+    #[serde(default)]
+    pub history_mask: u32,
 }
 
 pub fn strategy(max_n: usize) -> impl Strategy<Value = Case> {
@@ -46,8 +52,9 @@ pub fn strategy(max_n: usize) -> impl Strategy<Value = Case> {
         proptest::sample::select(vec![1usize, 2, 4, 16]),
         proptest::bool::weighted(0.3),
         proptest::bool::weighted(0.3),
+        (prop_oneof![5 => Just(0u8), 3 => Just(1u8), 1 => Just(2u8), 1 => Just(3u8)], any::<u32>()),
     )
-        .prop_map(|(n, before, after, small, picks, ncmd, bc, gp, tw, listener, shared_exe)| {
+        .prop_map(|(n, before, after, small, picks, ncmd, bc, gp, tw, listener, shared_exe, (history, history_mask))| {
             let mut layers = vec![];
             for i in 0..before {
                 layers.push(small[i % small.len()]);
@@ -65,6 +72,8 @@ pub fn strategy(max_n: usize) -> impl Strategy<Value = Case> {
                 tokio_workers: tw,
                 listener,
                 shared_exe,
+                history,
+                history_mask,
             }
         })
 }
@@ -106,21 +115,55 @@ fn attempt(case: &Case, w: usize, timeout_ms: u64) -> Result<(bool, CaseInfo, Va
             beh.insert((c.clone(), t.path.clone()), b);
         }
     }
-    if case.shared_exe {
-        let mut plan = BTreeMap::new();
-        for ((c, t), b) in &beh {
-            let f = format!("tools/shared/{}.sh", c);
-            env.install_command(&f, true);
-            plan.insert((f, t.clone()), b.clone());
+    let install = |env: &Env, beh: &BTreeMap<(String, String), Behavior>| {
+        if case.shared_exe {
+            let mut plan = BTreeMap::new();
+            for ((c, t), b) in beh {
+                let f = format!("tools/shared/{}.sh", c);
+                env.install_command(&f, true);
+                plan.insert((f, t.clone()), b.clone());
+            }
+            env.set_plan(&plan);
+        } else {
+            bb::install_simple(env, cfg, beh);
         }
-        env.set_plan(&plan);
-    } else {
-        bb::install_simple(&env, cfg, &beh);
-    }
+    };
     let mut args: Vec<&str> = vec!["run", "-c"];
     for c in &commands {
         args.push(c);
     }
+    let mut history_failures = 0;
+    if case.history != 0 {
+        // an earlier run without any rendezvous; what it recorded must not change how the
+        // next run schedules the group
+        let mut hb = BTreeMap::new();
+        for (ci, c) in commands.iter().enumerate() {
+            for t in &cfg.targets {
+                let mut b = Behavior::default();
+                if ci == case.barrier_cmd {
+                    if let Some(k) = members.iter().position(|m| m == &t.path) {
+                        let fails = match case.history {
+                            1 => case.history_mask >> (k % 32) & 1 == 1,
+                            3 => true,
+                            _ => false,
+                        };
+                        if fails {
+                            b.exit = 1 + (k % 7) as i32;
+                            history_failures += 1;
+                        }
+                    }
+                }
+                hb.insert((c.clone(), t.path.clone()), b);
+            }
+        }
+        install(&env, &hb);
+        let o = env.mr(&args);
+        if o.json().is_none() {
+            return inconclusive(format!("the earlier run produced no JSON: {}", o.brief()));
+        }
+        env.clear_traces();
+    }
+    install(&env, &beh);
     env.default_timeout = std::time::Duration::from_millis(timeout_ms * 3 + 60_000);
     let mut tail = None;
     if case.listener {
@@ -156,6 +199,8 @@ fn attempt(case: &Case, w: usize, timeout_ms: u64) -> Result<(bool, CaseInfo, Va
         .class(&format!("tokio-workers={}", case.tokio_workers))
         .class_if(case.listener, "tail-listener-attached")
         .class_if(case.shared_exe, "shared-executable")
+        .class_if(case.history != 0, "after-an-earlier-run")
+        .class_if(history_failures > 0 && history_failures < n, "earlier-run-failed-for-part-of-the-group")
         .inv(env.invocations);
     let obs = json!({"group": members, "timeouts": timeouts, "run": out.brief()});
     if out.timed_out || !timeouts.is_empty() {
@@ -168,13 +213,15 @@ fn attempt(case: &Case, w: usize, timeout_ms: u64) -> Result<(bool, CaseInfo, Va
     if run.failed || out.code != Some(0) {
         return viol_obs("c16.failed", "the rendezvous run did not succeed".into(), obs);
     }
+    // distinct members: a child orphaned by the failing earlier run may still leave a late trace
     let started = traces
         .iter()
-        .filter(|t| {
+        .filter_map(|t| {
             let k = bb::trace_key(&env, t);
-            k.0 == commands[case.barrier_cmd] && members.contains(&k.1)
+            (k.0 == commands[case.barrier_cmd] && members.contains(&k.1)).then_some(k.1)
         })
-        .count();
+        .collect::<std::collections::BTreeSet<_>>()
+        .len();
     if started != n {
         return viol_obs("c16.members", format!("{} of {} group members were started", started, n), obs);
     }
@@ -203,7 +250,7 @@ pub fn run(ctx: &mut Ctx) {
     ctx.hang_limit = std::time::Duration::from_secs(600);
     ctx.shrink_budget = std::time::Duration::from_secs(1);
     ctx.rule = "layered configuration with one layer of n mutually independent targets (n in 2..24, and the size boundaries 31-34 and 63-66; thorough: up to 130) placed first / in the middle / last, \
-1-3 commands, tokio worker threads in {1,2,4,16}, 30% with a `log tail` listener attached, 30% with one script shared by all targets through commands.definitions; the groups are read from `analyze --target-groups`, one group of size >= 2 is chosen and all its members run the helper in \
+1-3 commands, tokio worker threads in {1,2,4,16}, 30% with a `log tail` listener attached, 30% with one script shared by all targets through commands.definitions; half of the cases after an earlier run of the same commands (all succeeding, all group members failing, or a random part of the group failing); the groups are read from `analyze --target-groups`, one group of size >= 2 is chosen and all its members run the helper in \
 barrier mode (wait until all members have started) under the 1st-3rd command. oracle: run exits 0, every member started, no barrier time-out (20 s, confirmed with 40 s). \
 non-trivial = group size >= 3; distinct by SHA-256"
         .to_string();
